@@ -430,9 +430,14 @@ def run_case(kinds, params, schedule):
     return solo, got, sch
 
 
-def body(c):
+# kinds in which the threads share an object built once per process (operator objects, a checkpointed function, a recorded graph)
+SHARED_KINDS = ["shared_tjp", "shared_hvp_twice", "shared_grad", "shared_jvp", "shared_args", "shared_ckpt", "const_graph"]
+
+
+def body(c, pool=None):
     n = c.int(2, 4)
-    kinds = [KINDS[c.int(0, len(KINDS) - 1)] for _ in range(n)]
+    pool = pool or KINDS
+    kinds = [pool[c.int(0, len(pool) - 1)] for _ in range(n)]
     if c.chance(1, 3):
         kinds = [kinds[0]] * n  # every thread runs the same kind of program (on its own data): shared operator objects meet themselves
     params = [c.choice([0.25, 0.5, 0.75, 1.25]) for _ in range(n)]
@@ -477,11 +482,12 @@ def _fine_events(on):
     mon.set_events(tool, mon.events.PY_START if on else 0)
 
 
-def fine_body(c):
+def fine_body(c, pool=None):
     """Pre-emption inside autograd's own code: function entries of the package are yield points, the schedule is a list of
     (thread, run length) pairs."""
     n = c.int(2, 3)
-    kinds = [KINDS[c.int(0, len(KINDS) - 1)] for _ in range(n)]
+    pool = pool or KINDS
+    kinds = [pool[c.int(0, len(pool) - 1)] for _ in range(n)]
     if c.chance(1, 3):
         kinds = [kinds[0]] * n
     params = [c.choice([0.25, 0.5, 0.75, 1.25]) for _ in range(n)]
@@ -559,10 +565,13 @@ def sweep(tier, seed):
     return evaluations, keys, samples, viols, extra
 
 
+from functools import partial as _partial  # noqa: E402
+
 PROP = Prop("C20", [
     Test("threads", body, quick=2400, thorough=20000, shard_size=150),
     Test("threads_fine", fine_body, quick=600, thorough=6000, shard_size=40),
-], RULE, assumptions=[
+] + [Test("shared:" + k_, _partial(body, pool=[k_]), quick=60, thorough=600, shard_size=30) for k_ in SHARED_KINDS]
+  + [Test("shared_fine:" + k_, _partial(fine_body, pool=[k_]), quick=128, thorough=800, shard_size=16) for k_ in SHARED_KINDS], RULE, assumptions=[
     "the scheduler owns interleavings at the granularity of yield points: in user code (function entry, between operations, before return, "
     "between API calls, inside user derivative rules) and, in threads_fine, at every function entry inside the autograd package; pre-emption "
     "between two bytecodes of one autograd function body is not explored",
